@@ -650,9 +650,11 @@ def step (s : DState) (line : String) : DState × String :=
     -- declared in the current dictionary since
     match pStr n, s.frozen with
     | some n, some D =>
+      -- (several live definitions with that name: any of them is a correct pick, `ok:*`)
       plain s (match D.getByName n with
-        | some d => "ok:" ++ toString d.code ++ ":" ++ (match d.vendor with | some v => toString v | none => "-") ++ ":" ++
-            bit d.m
+        | some d =>
+          if (defsNamed D n).length > 1 then "ok:*" else
+          "ok:" ++ toString d.code ++ ":" ++ (match d.vendor with | some v => toString v | none => "-") ++ ":" ++ bit d.m
         | none => "err")
     | _, _ => plain s "bad-op"
   | ["sdecnt", n, evs] =>
